@@ -266,6 +266,83 @@ class E2E:
             if self.copies > 60:
                 await self.purge_trash()
 
+    async def after_failed_persistence(self, rnd, rounds):
+        """An EXPUNGE that removed messages from the middle of the mailbox and
+        then could not record it: its last step -- the commit to the database --
+        fails once ("database is locked").  Whatever the client is told about
+        that EXPUNGE, the sets of the commands that follow denote the messages
+        that are there (failpoint: Mailbox.commit_to_db wrapped from the harness,
+        raising once when called by expunge())."""
+        import sqlite3
+        import sys as _sys
+
+        from asimap.mbox import Mailbox
+
+        from ..gen import CidFactory as _Cid
+
+        cx = self.cx
+        state = {"armed": False, "fired": 0}
+        if not getattr(Mailbox, "_verif_commit_failpoint", None):
+            orig = Mailbox.commit_to_db
+
+            async def commit_to_db(mb, *a, **kw):
+                st = Mailbox._verif_commit_failpoint
+                if st.get("armed") and _sys._getframe(1).f_code.co_name == "expunge":
+                    st["armed"] = False
+                    st["fired"] += 1
+                    raise sqlite3.OperationalError("database is locked (asimap-verif failpoint)")
+                return await orig(mb, *a, **kw)
+
+            Mailbox.commit_to_db = commit_to_db
+        Mailbox._verif_commit_failpoint = state
+        cids = _Cid("fp")
+        keep_name, keep_uids = self.name, self.uids
+        try:
+            for rd in range(rounds):
+                name = f"fp{rd}"
+                s = self.s
+                await s.cmd(f"CREATE {name}")
+                for i in range(rnd.choice([5, 7, 12])):
+                    await s.append(name, cids.make()[1])
+                await s.cmd(f"SELECT {name}")
+                r = await s.cmd("UID SEARCH ALL")
+                before = sorted(x for y in r.untagged("SEARCH") for x in y.data)
+                if len(before) < 4:
+                    cx["failed_commit_round_skipped"] += 1
+                    continue
+                victims = sorted(rnd.sample(before[:-1], rnd.choice([1, 2])))
+                await s.cmd(f"UID STORE {','.join(map(str, victims))} +FLAGS.SILENT (\\Deleted)")
+                state["armed"] = True
+                r = await s.cmd("EXPUNGE")
+                state["armed"] = False
+                cx["expunge_with_failed_commit:" + r.status] += 1
+                await self.rig.settle()
+                s.pump()
+                if s.writer.closed or s.wire_error:
+                    s = self.s = self.rig.session("D2")
+                await self.rig.advance(rnd.choice([0, 3]))
+                r = await s.cmd(f"SELECT {name}")
+                if not r.ok:
+                    self.bad("SELECT", name, f"after an EXPUNGE whose commit failed: {r.status} {r.tagged.text if r.tagged else ''}")
+                    continue
+                r = await s.cmd("FETCH 1:* (UID)")
+                now = [d["UID"] for _, d in sorted(r.fetches(), key=lambda t: t[0]) if "UID" in d]
+                if sorted(now) != now or not set(now) <= set(before):
+                    self.bad("FETCH", "1:*", f"after an EXPUNGE whose commit failed: mailbox had {before}, lists {now}")
+                    continue
+                self.uids, self.name = now, name
+                cx["failed_commit_rounds"] += 1
+                lo = now[0] if now else 1
+                for text in ["1:*", "*", f"{lo}", f"{victims[0]}", f"{victims[0]}:{victims[-1] + 1}", f"{now[len(now) // 2]}:*" if now else "1", "2:3", f"{now[-1]}" if now else "1"]:
+                    await self.one(text, heavy=True)
+                    cx["sets_after_failed_commit"] += 1
+        finally:
+            state["armed"] = False
+            self.uids, self.name = keep_uids, keep_name
+            if not (self.s.writer.closed or self.s.wire_error):
+                await self.s.cmd(f"SELECT {keep_name}")
+        cx["commit_failpoint_fired"] += state["fired"]
+
     async def arrivals(self, rnd, rounds):
         """The mailbox changes behind the session's back (the MH agent files mail,
         another session appends or expunges) and the *first* thing the session
@@ -462,6 +539,8 @@ async def script(loop, ctx):
             if plan.get("arrivals"):
                 await e.arrivals(rnd, plan["arrivals"])
                 evaluated += plan["arrivals"]
+                await e.after_failed_persistence(rnd, 2 if tier == "quick" else 6)
+                evaluated += 2 if tier == "quick" else 6
             cx["e2e_sets"] += evaluated
             viols += e.viols
             samples = [f"N={n} uids={uids} end-to-end sets: {mine[:6]} ..."]
